@@ -519,3 +519,20 @@ func (s *MonStore) DecodeBlock(blk *wire.Block) {
 	}
 	s.C.Count("decode_block."+blk.Name(), 1)
 }
+
+// MergeHandProto merges a protobuf store message written by hand (both bin forms, zero padding allowed): the
+// documentation assigns it the bins given in want (index -> weight, zeros left out), added to what the store holds.
+func (s *MonStore) MergeHandProto(pb *sketchpb.Store, want map[int]float64) {
+	s.C.Logf("MergeWithProto(%s, hand-written message: %d sparse entries, %d contiguous counts from %d)", s.Name, len(pb.BinCounts), len(pb.ContiguousBinCounts), pb.ContiguousBinIndexOffset)
+	s.around("MergeWithProto(hand-written)", false, func() {
+		if bp, ok := s.St.(*store.BufferedPaginatedStore); ok && len(want)%2 == 0 {
+			bp.MergeWithProto(pb)
+		} else {
+			store.MergeWithProto(s.St, pb)
+		}
+	})
+	for idx, w := range want {
+		s.M.Add(idx, w)
+	}
+	s.C.Count("event.MergeWithProto(hand-written)", 1)
+}
